@@ -277,12 +277,49 @@ pub const CORPUS: &[(&str, &str)] = &[
     ("duplicate-import-names", r#"(module (import "m" "x" (func)) (import "m" "x" (func (param i32))) (import "m" "x" (global i32)) (export "a" (func 0)) (export "b" (func 1)))"#),
 ];
 
+/// long signatures that differ in a single position (first / second / middle / last parameter or result), and signatures that differ only
+/// in where the parameters end and the results begin: every function must keep its own type
+pub fn generated_corpus() -> Vec<(String, String)> {
+    let mut out = vec![];
+    let tys = ["i32", "i64", "f32", "f64"];
+    for len in [1usize, 2, 7, 8, 20, 21, 22, 23, 24, 32, 40, 64, 70] {
+        let mut t = String::from("(module ");
+        let mut n = 0;
+        let mut sigs: Vec<(Vec<&str>, Vec<&str>)> = vec![(vec!["i32"; len], vec![])];
+        let mut pos = vec![0, 1.min(len - 1), len / 2, len - 1];
+        pos.dedup();
+        for p in pos {
+            for other in &tys[1..] {
+                let mut ps = vec!["i32"; len];
+                ps[p] = other;
+                sigs.push((ps.clone(), vec![]));
+                sigs.push((vec![], ps.clone()));
+                sigs.push((vec!["i32"; 3], ps));
+            }
+        }
+        for split in [0, 1, len / 2, len - 1, len] {
+            sigs.push((vec!["i32"; split.min(len)], vec!["i32"; len - split.min(len)]));
+        }
+        sigs.sort();
+        sigs.dedup();
+        for (ps, rs) in sigs {
+            t.push_str(&format!("(func (export \"f{n}\") (param {}) (result {}) unreachable)", ps.join(" "), rs.join(" ")));
+            n += 1;
+        }
+        t.push(')');
+        out.push((format!("signatures-of-length-{len}-differing-in-one-position"), t));
+    }
+    out
+}
+
 /// `entities [NAME...]`
 pub fn entities(args: &[String]) -> Result<Value> {
     std::panic::set_hook(Box::new(|_| {}));
     let mut failures = vec![];
     let mut checked = 0;
-    for (name, text) in CORPUS {
+    let generated = generated_corpus();
+    let all: Vec<(&str, &str)> = CORPUS.iter().map(|(a, b)| (*a, *b)).chain(generated.iter().map(|(a, b)| (a.as_str(), b.as_str()))).collect();
+    for (name, text) in &all {
         if !args.is_empty() && !args.iter().any(|a| a == name) {
             continue;
         }
